@@ -33,8 +33,18 @@ def run(tier, seed, replay_rows=None):
             (None, "Gen_Lifecycle_2x3.cfg", 2, 3, 600 if q else 6000, 1),
             (None, "Gen_Lifecycle_3x2.cfg", 3, 2, 600 if q else 6000, 1)]
     lifecycle.run_property(ck, cfgs, normalize, concern, replay_rows=replay_rows)
+    if replay_rows is None:
+        # the same statement under the config-file trigger, with iterations in flight across the stages' pools
+        import json
+        vlib.flow(ck, mcs=[], sub="c20file", trace_module="Trace_Combined", trace_cfg="Trace_Combined.cfg",
+                  trace_file="c20file.ndjson", var="l",
+                  key_of=lambda r: "combined-iteration-not-run-in-order-on-its-own-handle@file",
+                  describe=lambda r: json.dumps(r)[:600], workers=2)
     return ck.finish()
 
 
 def replay(path, seed):
+    import json
+    if json.load(open(path))["replay"].get("sub") == "c20file":
+        return run("quick", seed)          # observations under the file trigger are re-made on the current tree
     return vlib.std_replay(run, path, seed)
